@@ -49,6 +49,7 @@ type w1Client struct {
 	Proto            string            `json:"proto"` // json | protobuf
 	User             string            `json:"user"`
 	ConnSubs         []string          `json:"conn_subs,omitempty"` // connect-time server-side subscriptions
+	Emulation        bool              `json:"emulation,omitempty"` // commands arrive through independent requests (HTTP emulation): a rejected command does not stop later ones from being handed to the connection
 	ConnSubExpired   bool              `json:"conn_sub_expired,omitempty"` // they carry an ExpireAt in the past: the connect command is answered with an error AFTER the connection was authenticated
 	NoPong           bool              `json:"no_pong,omitempty"`
 	PongDelayMs      int               `json:"pong_delay_ms,omitempty"`
@@ -411,6 +412,11 @@ func (cl *w1SimClient) onReply(rep *protocol.Reply) {
 		f.Kind = "ping"
 	case rep.Error != nil:
 		f.Kind = "error"
+		for _, c := range cl.cmds {
+			if c.ID == rep.Id && c.Kind == "connect" {
+				w.s.Probe("connect_answered_with_error")
+			}
+		}
 	case rep.Connect != nil:
 		f.Kind = "connect"
 		f.Subs = rep.Connect.Subs
@@ -537,6 +543,10 @@ func (cl *w1SimClient) send(cmd *protocol.Command, kind, ch string) bool {
 	rec.Proceed = ok
 	rec.Returned = true
 	rec.RetSeq = w.next()
+	if !ok && cl.spec.Emulation {
+		w.s.Probe("emulation_command_rejected_next_one_still_sent")
+		return true
+	}
 	if !ok {
 		// a transport read loop ends here and runs the close func
 		cl.readerDone = true
@@ -1687,6 +1697,7 @@ func w1Gen(c *simrt.Choice, prop, tier string) any {
 			// connect-time subscription): the connection must not accept anything else
 			cl.ConnSubs = []string{pickCh()}
 			cl.ConnSubExpired = true
+			cl.Emulation = true
 		}
 		if prop == "C09" && c.Intn(3) == 0 {
 			// an asynchronous sub_refresh handler completing after the subscription it
